@@ -324,6 +324,12 @@ func VerifyLemma(p *Prog, lm *Lemma) *VC {
 		for _, rq := range lm.Requires {
 			vc.assume(st, env.evalBool(rq.Expr))
 		}
+		if len(lm.Requires) > 0 && tag == "" {
+			// vacuity guard: the hypotheses of a lemma must be satisfiable
+			if o := vc.oblige(st, "canary", "requires", token.NoPos, False, "lemma hypotheses satisfiable"); o != nil {
+				o.Canary = true
+			}
+		}
 		for _, u := range lm.Uses {
 			call, ok := u.Expr.(SCall)
 			if !ok {
@@ -339,6 +345,18 @@ func VerifyLemma(p *Prog, lm *Lemma) *VC {
 				continue
 			}
 			vc.instLemma(env, st, other, call.Args, "lemma-pre")
+		}
+		for _, u := range lm.Applies {
+			call, ok := u.Expr.(SCall)
+			if !ok {
+				continue
+			}
+			other, ok := vc.P.Specs.Lemmas[call.Fun]
+			if !ok || other.Name == lm.Name {
+				vc.errorf(token.NoPos, "lemma %s applies unknown lemma %s", lm.Name, call.Fun)
+				continue
+			}
+			vc.instLemma(env, st, other, call.Args, "apply")
 		}
 		for i, en := range lm.Ensures {
 			g := env.evalBool(en.Expr)
